@@ -129,6 +129,13 @@ def judge(ctx, case):
             ctx.viol("serialised ECIES ciphertext differs from the independent BIE1 construction (%s, %s)" % (what, "key excluded" if exclude else "key included"), {"got": o["bytes"][:200], "exp": exp.hex()[:200]})
         if "keys" in o and (o["keys"]["iv"], o["keys"]["ke"], o["keys"]["km"]) != (iv.hex(), ke.hex(), km.hex()):
             ctx.viol("derived cipher keys differ from SHA-512(compressed ECDH point)", {})
+        for fld in ("derive_sender", "derive_recipient"):
+            if fld in o:
+                ctx.ev()
+                ctx.hit("derive_cipher_keys")
+                k = o[fld].get("ok")
+                if k is None or (k["iv"], k["ke"], k["km"]) != (iv.hex(), ke.hex(), km.hex()):
+                    ctx.viol("ECIES::derive_cipher_keys (%s side) differs from SHA-512(compressed ECDH point)" % fld.split("_")[1], {"resp": str(o[fld])[:200]})
     else:
         ctx.hit("ephemeral")
         ctx.ev()
